@@ -374,6 +374,13 @@ impl RADAU {
             scal[i] = atol[i] + rtol[i] * y[i].abs();
         }
 
+        // Land on xend if the first step would reach or pass it
+        if (x + h * 1.0001 - xend) * posneg >= 0.0 {
+            h = xend - x;
+            hhfac = h;
+            last = true;
+        }
+
         // --- Main integration loop ---
         'main: loop {
             if call_jac {
@@ -756,7 +763,9 @@ impl RADAU {
                     }
                 }
 
-                if last {
+                // Done if this was the landing step, or if the step ended on xend anyway
+                // (the remaining distance is below the step-size resolution)
+                if last || 0.1 * (xend - x).abs() <= x.abs() * uround || (x - xend) * posneg >= 0.0 {
                     h = hnew;
                     status = Status::Success;
                     break 'main;
